@@ -33,6 +33,8 @@ CheckStream(r) ==
      /\ \A j \in 1..Len(bl) : r.full[j] = SubSeq(out, 1, bl[j])
 Check(r) ==
   CASE r.op = "stream" -> CheckStream(r)
+    \* 128 bytes of a huge keystream at a given block index (r.ic): they are the first 128 bytes of the keystream started there
+    [] r.op = "stream_at" -> r.ret = 0 /\ r.bytes = Keystream(r)
     [] r.op = "ietf_limit" -> (r.outcome = "misuse") = IETFWouldWrap(LE32(r.ic, 1), r.len) /\ r.outcome # "error"
     [] r.op = "hchacha20" -> r.out = (IF r.wc = 1 THEN HChaCha20C(r.k, r.in, r.c) ELSE HChaCha20(r.k, r.in))
     [] r.op = "hsalsa20" -> r.out = (IF r.wc = 1 THEN S!HSalsa20C(r.k, r.in, r.c) ELSE S!HSalsa20(r.k, r.in))
